@@ -244,6 +244,12 @@ def run_walk(rng, name, cfg, objs, focus, n_agents, n_steps, perturb, resets, se
             if a["type"] == "ScanNetwork" and blocked_in_episode:
                 scans_after_block.append((ag, dict(a)))
             v2 = WL.impl_view(new_gs)
+            shape = WL.shape_errors(new_gs)
+            if shape:
+                for p_ in ("C11", "C15"):
+                    wk.hits.append((p_, "view is not made of sets", f"the view returned for {a['type']} is not well-formed: {'; '.join(shape[:3])} "
+                                    "(it is not equal to what its own encoding decodes to)",
+                                    {"kind": "walk", "scenario": name, "history": list(history), "shape_errors": shape[:6]}))
             T2 = WL.impl_tables(g)
             Wexp, vexp = WL.ref_step(Wref, v, a)
             changed = not WR.same_view(v, v2) or not WR.same_world(T, T2)
